@@ -115,17 +115,20 @@ func c04Seq(run *h.Run, tier string) {
 	var cfgs []ref.PConfig
 	if tier == "quick" {
 		cfgs = []ref.PConfig{
-			{MaxRcpt: 2, MaxBytes: 40, AllowInsecureAuth: true, AuthBackend: true},
+			{MaxRcpt: 2, MaxBytes: 40, AllowInsecureAuth: true, AuthBackend: true, LineMax: 120},
 			{LMTP: true, LMTPBackend: true, MaxRcpt: 2, AllowInsecureAuth: true, AuthBackend: true},
 		}
 	} else {
 		for _, pc := range protocolConfigs("thorough") {
 			if !pc.TLSAvail {
+				if len(cfgs)%2 == 0 {
+					pc.LineMax = 120 // every line of the alphabet is shorter; histories are much longer
+				}
 				cfgs = append(cfgs, pc)
 			}
 		}
 	}
-	run.Rule = fmt.Sprintf("the C03 breadth-first search (same alphabet, %d configurations without TLS so that every history can be re-sent as raw octets); every transition is executed lock-step against the reference model (reply count and order per command, incl. 354/334 intermediates, one final reply per recipient in LMTP, the closing 500) and then the exact octets the lock-step client sent are re-sent (a) in ONE segment (fully pipelined), (b) one octet per segment, (c) split in two at the boundaries of the last command +-1 and in its middle; the server's output must be octet-identical. Every reply is parsed by a strict RFC 5321/2034 parser (ref/reply.go) and must carry an enhanced code of its class (except greeting, HELO/EHLO/LHLO, 3xx); negative final replies must carry the text of that message's own error.", len(cfgs))
+	run.Rule = fmt.Sprintf("the C03 breadth-first search (same alphabet, %d configurations without TLS so that every history can be re-sent as raw octets; half of them with MaxLineLength 120 - longer than any line, far shorter than a history); every transition is executed lock-step against the reference model (reply count and order per command, incl. 354/334 intermediates, one final reply per recipient in LMTP, the closing 500) and then the exact octets the lock-step client sent are re-sent (a) in ONE segment (fully pipelined), (b) one octet per segment, (c) split in two at the boundaries of the last command +-1 and in its middle; the server's output must be octet-identical. Every reply is parsed by a strict RFC 5321/2034 parser (ref/reply.go) and must carry an enhanced code of its class (except greeting, HELO/EHLO/LHLO, 3xx); negative final replies must carry the text of that message's own error.", len(cfgs))
 	run.Assumptions = []string{"replies to STARTTLS-upgraded conversations are judged lock-step only (C03/C10), since dropping pipelined plaintext is required there", "reply text for control octets echoed from arguments is outside the alphabet (printable ASCII)"}
 	for _, pc := range cfgs {
 		alpha := Alphabet(pc)
